@@ -210,7 +210,11 @@ def part_a(stats, shard, nshards, tier):
                         code = (code0[0], code0[1], n1, n2)
                     else:
                         code = (code0[0], n1, n2, 0x56)
-                    for ptr in EDGE:
+                    ptrs = EDGE
+                    if code0[0] == 0xED and code0[1] in (0xA2, 0xA3, 0xAA, 0xAB, 0xB2, 0xB3, 0xBA, 0xBB):
+                        # block I/O: B = 0 with C = 0xFF and B = 1 with C = 0 (the port address and MEMPTR = port +/- 1 wrap)
+                        ptrs = EDGE + (0x00FF, 0x0100)
+                    for ptr in ptrs:
                         for spv in ((ptr,) if quick else EDGE):
                             for F in (0x00, 0xFF):
                                 d = part_a_case(rig, code, ptr, spv, F)
